@@ -36,7 +36,10 @@ def main(unit, only=None):
             if not ok:
                 bad += 1
                 if got == "undecided":
-                    print(r.stdout[-800:])
+                    try:
+                        print("   reason:", json.loads(r.stdout)["reason"][:600])
+                    except Exception:
+                        print(r.stdout[-400:])
         finally:
             shutil.rmtree(tmp, ignore_errors=True)
     return 1 if bad else 0
